@@ -77,6 +77,8 @@ def run(ctx):
             if not rn.violated:
                 raise core.MachineryError("vacuity guard %s_%s did not fire" % (neg, tag))
         reqs_, rg = tlc.generate("GenDispatch", "Gen_Dispatch%s.cfg" % tag)
+        if not v1:
+            reqs_v5 = reqs_
         res.add_tlc(rg, "Gen_Dispatch%s abstract requests (K=2)" % tag)
         res.coverage["abstract_requests_%s" % tag] = len(reqs_)
         bench = Bench(1 if v1 else 2)
@@ -112,6 +114,30 @@ def run(ctx):
                               "shutdown": shut, "pending": pend, "value": value if len(json.dumps(value)) < 3000 else "<large>"})
                 if shut:
                     bench = Bench(1 if v1 else 2)
+    # a long run on one fresh manager: well-formed authorized sign requests over many distinct transactions, earlier
+    # requests sent again (a pegout is one request per input) at the distances bounded tables have
+    from .. import longrun
+    wf = [a for a in reqs_v5 if a["muts"] == 0 and a["req"]["cmd"] == "sign" and a["req"].get("kind") in ("tx", "both")
+          and a["verdict"] == 0]
+    n_long = 0
+    if wf:
+        lb = Bench(2)
+        seen = {}
+        for step in longrun.revisit_schedule(ctx.pick(140, 300), every=ctx.pick(6, 3)):
+            if step[0] == "new":
+                a = wf[step[1] % len(wf)]
+                seen[step[1]] = (a, dispatch.concretise(a["req"], False, ctx.rng))
+            a, value = seen[step[1]]
+            code, has, contacted, shut = lb.run(value, pending=False)
+            if (0 if (contacted or code >= 0) else code) != a["verdict"]:
+                drift += 1
+            cells.append({"req": a["req"], "v1": False, "code": code, "hascode": has, "contacted": contacted,
+                          "shutdown": shut, "pending": False, "value": value if len(json.dumps(value)) < 3000 else "<large>",
+                          "long": step[0] if step[0] == "new" else "again@%d" % step[2]})
+            n_long += 1
+            if shut:
+                lb = Bench(2)
+    res.coverage["long_run_requests"] = n_long
     res.coverage["requests_executed"] = len(cells)
     res.coverage["model_drift"] = drift
     for i, c in enumerate(cells):
@@ -146,7 +172,7 @@ def run(ctx):
     for c in bad:
         r = c["req"]
         mutated = {k: v for k, v in r.items() if k in relevant(r, c["v1"])}
-        sig = "%s%s|%s %s -> %s%s" % (fails[c["id"]], "@repair-pending" if c.get("pending") else "",
+        sig = "%s%s|%s %s -> %s%s" % (fails[c["id"]], "@repair-pending" if c.get("pending") else ("@" + c["long"] if c.get("long", "new") != "new" else ""),
                                       "v1" if c["v1"] else "v5",
                                     ",".join("%s=%s" % kv for kv in sorted(mutated.items())),
                                     c["code"] if c["hascode"] else "<none>", " contacted" if c["contacted"] else "")
